@@ -250,7 +250,9 @@ def corr_hook(ctx, rep, mdl):
                 if not mm:
                     continue
                 relb, padb, suf = mm.group(1), mm.group(2), mm.group(3)
-                mq = [f"links.diff_stat {l} {hx(fmt)} {hfield} {allabs[f]} {hx(f)} {hx(relb)} {hx(suf)} {len(relb) + len(padb)}"
+                ar = ask_cfg(hook, cfgs[True], [f"ansi.absolute_path {hx(relb)}"])[0]
+                ar = "-" if ar == "ok none" else ar.split()[1]
+                mq = [f"links.diff_stat {l} {hx(fmt)} {hfield} {allabs[f]} {ar} {hx(f)} {hx(relb)} {hx(suf)} {len(relb) + len(padb)}"
                       for l in (1, 0)]
             else:
                 minus, plus = f
@@ -355,6 +357,7 @@ def gen_input(rng):
                       "    fix " + "".join(rng.choice("0123456789abcdef") for _ in range(rng.choice([7, 10]))) + " again", ""]
             if rng.random() < 0.4:
                 lines += [" sub/a.rs | 2 +-", " 1 file changed, 1 insertion(+), 1 deletion(-)", ""]
+                files.append("sub/a.rs")
         for _ in range(rng.randint(1, 3)):
             name = rng.choice(["sub/a.rs", "b.txt", "dir/c d.py", "é.txt", "sub/deep/x.md", "Makefile", "other/z.rs"])
             files.append(name)
